@@ -93,3 +93,26 @@ def first_bad(impl, exact, scale):
         if not close(a, b, max(s, abs(float(b)) if not (isinstance(b, float) and math.isnan(b)) else 0.0)):
             return (i, a, b)
     return None
+
+
+# ---------------------------------------------------------------- mesh construction with a chosen coordinate representation
+def build_mesh(kind, V, X, rep="vec"):
+    """Build the mouette mesh with the vertex coordinates handed over in the requested REPRESENTATION (same values)."""
+    import numpy as np
+    import mouette as M
+    d = M.mesh.RawMeshData()
+    if rep == "vec": d.vertices += [M.Vec(*[float(c) for c in v]) for v in V]
+    elif rep == "list": d.vertices += [[float(c) for c in v] for v in V]
+    elif rep == "tuple": d.vertices += [tuple(float(c) for c in v) for v in V]
+    elif rep == "ndarray": d.vertices += list(np.array(V, dtype=np.float64))
+    elif rep == "float32": d.vertices += list(np.array(V, dtype=np.float32))
+    elif rep == "intlist": d.vertices += [[int(c) for c in v] for v in V]
+    elif rep == "int64": d.vertices += list(np.array([[int(c) for c in v] for v in V], dtype=np.int64))
+    elif rep == "int32": d.vertices += [np.array([int(c) for c in v], dtype=np.int32) for v in V]
+    elif rep == "int16": d.vertices += [np.array([int(c) for c in v], dtype=np.int16) for v in V]
+    else: raise ValueError(rep)
+    if kind == "surf":
+        d.faces += [list(f) for f in X]; return M.mesh.SurfaceMesh(d)
+    if kind == "vol":
+        d.cells += [list(c) for c in X]; return M.mesh.VolumeMesh(d)
+    d.edges += [tuple(e) for e in X]; return M.mesh.PolyLine(d)
